@@ -854,14 +854,23 @@ Pointset_Powerset<PSET>::relation_with_aux(const Cons_or_Congr& c) const {
   for (Sequence_const_iterator si = x.sequence.begin(),
          s_end = x.sequence.end(); si != s_end; ++si) {
     Poly_Con_Relation relation_i = si->pointset().relation_with(c);
+    // An empty disjunct is both included in and disjoint from `c':
+    // it must not count as a witness for a strict intersection.
+    const bool empty_i
+      = relation_i.implies(Poly_Con_Relation::is_included())
+      && relation_i.implies(Poly_Con_Relation::is_disjoint());
     if (relation_i.implies(Poly_Con_Relation::is_included())) {
-      included_once = true;
+      if (!empty_i) {
+        included_once = true;
+      }
     }
     else {
       is_included = false;
     }
     if (relation_i.implies(Poly_Con_Relation::is_disjoint())) {
-      disjoint_once = true;
+      if (!empty_i) {
+        disjoint_once = true;
+      }
     }
     else {
       is_disjoint = false;
